@@ -1,5 +1,8 @@
 import TempestVerif.Model.Modes
 import TempestVerif.Model.Cadence
+import TempestVerif.Lemmas.CholeskyPD
+import TempestVerif.Props.C15
+import TempestVerif.Gen.Constants
 import Mathlib.Data.List.Sort
 import Mathlib.Tactic
 /-
@@ -518,5 +521,166 @@ example : (mkModeStats (V := Nat) (D := Nat) (fun m : Int => if m = 0 then none 
       (fun m : Int => if 0 < m then some m else none) [0, 1] [4, -9] [5, 5]).isSome = false ∧
     (mkModeStats (V := Nat) (D := Nat) (fun m : Int => if m = 0 then none else some m)
       (fun m : Int => if 0 < m then some m else none) [0, 1] [4] [5, 5]).isSome = false := by decide
+
+/-! ## clause round: hypotheses moved inside the model -/
+
+section argmin
+variable {α : Type} [Sc α]
+
+theorem argminFrom_lt' (xs : List α) : ∀ (i bi : Nat) (bv : α), bi < i →
+    Model.HGMM.argminFrom i bi bv xs < i + xs.length := by
+  induction xs with
+  | nil => intro i bi bv h; simpa [Model.HGMM.argminFrom] using h
+  | cons x xs ih =>
+    intro i bi bv h
+    simp only [Model.HGMM.argminFrom, List.length_cons]
+    split
+    · have := ih (i + 1) i x (by omega); omega
+    · have := ih (i + 1) bi bv (by omega); omega
+
+/-- `np.argmin` over a row of `K ≥ 1` distances answers an index `< K` -/
+theorem argmin_lt (row : List α) (h : row ≠ []) : ∃ k, Model.HGMM.argmin row = some k ∧ k < row.length := by
+  cases row with
+  | nil => exact absurd rfl h
+  | cons x xs =>
+    refine ⟨_, rfl, ?_⟩
+    have := argminFrom_lt' xs 1 0 x (by omega)
+    simp only [List.length_cons]; omega
+
+/-- `mode_index` with the nearest-mean `argmin` inside the model never fails and agrees with `modeIndex` at an in-range fallback -/
+theorem modeIndexD_spec (stored : List Nat) (hne : stored ≠ []) (drow : List α) (hlen : drow.length = stored.length) (a : Nat) :
+    ∃ n, n < stored.length ∧ modeIndexD stored drow a = some (modeIndex stored n a) := by
+  have hrow : drow ≠ [] := by
+    intro h; rw [h] at hlen; exact hne (List.length_eq_zero_iff.1 hlen.symm)
+  obtain ⟨n, hn1, hn2⟩ := argmin_lt drow hrow
+  refine ⟨n, by omega, ?_⟩
+  unfold modeIndexD modeIndex
+  simp only
+  split <;> simp [hn1]
+
+/-- **C14 (labels), FULL, with no hypothesis on the fallback**: for every non-empty training label vector, every raw assignment and
+    every row of `K_modes` distances, `mode_index` returns an index `i < K_modes`; the relabelled assignment `l` is a present label; the
+    mode at `i` was built from exactly the training particles carrying `l`; a label that has a mode keeps it. -/
+theorem C14_labels_full_argmin (labels : List Nat) (hne : labels ≠ []) (drow : List α) (hlen : drow.length = numModes labels)
+    (a : Nat) :
+    ∃ i l, modeIndexD (labelsOf labels) drow a = some i ∧ i < numModes labels ∧ (labelsOf labels)[i]? = some l ∧ l ∈ labels ∧
+      modeOfRaw (fromParticles labels) i = some (indicesOf labels l) ∧
+      (∀ p, p ∈ indicesOf labels l ↔ labels[p]? = some l) ∧ indicesOf labels l ≠ [] ∧ (a ∈ labels → l = a) := by
+  have hul : uniqueSorted labels ≠ [] := by
+    obtain ⟨x, hx⟩ := List.exists_mem_of_ne_nil labels hne
+    exact List.ne_nil_of_mem ((mem_uniqueSorted labels x).2 hx)
+  rw [numModes_eq] at hlen
+  obtain ⟨n, hn, hD⟩ := modeIndexD_spec (uniqueSorted labels) hul drow hlen a
+  obtain ⟨h1, l, h2, h3, h4, h5, h6, h7⟩ := C14_labels_full labels hne n a (by rw [numModes_eq]; exact hn)
+  exact ⟨_, l, hD, h1, h2, h3, h4, h5, h6, fun ha => (h7 ha).1⟩
+
+end argmin
+
+example : modeIndexD (α := Rat) (labelsOf [0, 2, 2]) [5, 1] 1 = some 1 ∧ modeIndexD (α := Rat) (labelsOf [0, 2, 2]) [1, 5] 1 = some 0 ∧
+    modeIndexD (α := Rat) (labelsOf [0, 2, 2]) [1, 5] 2 = some 1 ∧ modeIndexD (α := Rat) (labelsOf [0, 2, 2]) [3, 3] 7 = some 0 := by decide
+
+/-- **degrees of freedom**: what `from_particles` stores is positive as soon as the fallback constant is and the fit answers a positive
+    value whenever it answers a finite one (`Props.C19.C19_nu_range`) -/
+theorem C14_dof_positive {D : Type} [LT D] [Zero D] (nu : Option D) (fallback : D) (hfb : 0 < fallback)
+    (hfit : ∀ v, nu = some v → 0 < v) : 0 < applyDofFallback nu fallback := by
+  cases nu with
+  | none => exact hfb
+  | some v => exact hfit v rfl
+
+/-- the fallback the core passes (`DOF_FALLBACK`, regenerated from /repo's config.py by translator G1) is positive -/
+theorem C14_dof_fallback_constant_pos : (0 : Rat) < (Gen.Constants.DOF_FALLBACKNum : Rat) / (Gen.Constants.DOF_FALLBACKDen : Rat) := by
+  decide +kernel
+
+/-- … hence with the shipped constant only the fit's own answer matters -/
+theorem C14_dof_positive_shipped (nu : Option Rat) (hfit : ∀ v, nu = some v → 0 < v) :
+    0 < applyDofFallback nu ((Gen.Constants.DOF_FALLBACKNum : Rat) / (Gen.Constants.DOF_FALLBACKDen : Rat)) :=
+  C14_dof_positive nu _ C14_dof_fallback_constant_pos hfit
+
+example : applyDofFallback (none : Option Rat) 1000000 = 1000000 ∧ applyDofFallback (some (3 : Rat)) 1000000 = 3 := by decide
+
+/-- **one clustering per mutation**: in an annealing iteration (clustering on) of an undisturbed run, the clusterer events are
+    `[fit,] predict, predict` and nothing else — the training labels the modes are built from (`Trainer.run`) and the assignments of
+    the active particles (`Resampler.run`) are predictions of the SAME fitted clusterer, with no refit in between. -/
+theorem C14_same_fit_generation (c : Cfg) (hc : c.useFlag = true) (hcl : c.clustering = true) (s : St) (h : Inv s) :
+    ∃ didFit, (step c s (.iter false)).trace = s.trace ++ annealEvents didFit ∧ (step c s (.iter false)).verdict = .ok := by
+  have hv : (s.verdict != Verdict.ok) = false := by simp [h.1]
+  have h' : Inv { s with iter := s.iter + 1 } := h
+  obtain ⟨t1, t2⟩ := inv_trainer c hc false _ h'
+  have t3 := t2 rfl hcl
+  have hv' : ((trainer c false { s with iter := s.iter + 1 }).verdict != Verdict.ok) = false := by simp [t1.1]
+  have hstep : step c s (.iter false) = emitPredict (trainer c false { s with iter := s.iter + 1 }) := by
+    simp only [step, hv, Bool.false_eq_true, if_false]
+    unfold resampler
+    rw [hv']
+    simp [hcl]
+  have hpred : ∀ q : St, q.clFitted = true → emitPredict q = { q with trace := q.trace ++ [.predict] } := by
+    intro q hq; simp [emitPredict, hq]
+  rw [hstep, hpred _ t3]
+  -- the trainer's own contribution
+  unfold trainer at t3 ⊢
+  simp only [Bool.false_eq_true, if_false, hcl, Bool.true_and] at t3 ⊢
+  by_cases hf : fitCond c { s with iter := s.iter + 1 } = true
+  · refine ⟨true, ?_, ?_⟩
+    · simp only [hf, if_true]
+      rw [hpred _ rfl]
+      simp [emitFit, annealEvents]
+    · simp only [hf, if_true]
+      rw [hpred _ rfl]
+      exact h.1
+  · have hon : onCadence c { s with iter := s.iter + 1 } = false := by
+      simp only [fitCond, Bool.or_eq_true, not_or, Bool.not_eq_true] at hf
+      exact hf.1
+    simp only [hf, hon] at t3 ⊢
+    simp only [Bool.false_eq_true, if_false, Bool.not_false, if_true] at t3 ⊢
+    have hs' : s.clFitted = true := by
+      unfold emitPredict at t3
+      split at t3 <;> exact t3
+    have he := hpred { s with iter := s.iter + 1 } hs'
+    refine ⟨false, ?_, ?_⟩
+    · rw [he]; simp [annealEvents]
+    · rw [he]; exact h.1
+
+/-- … for every reachable state: any `cluster_every`, restored `iter`, β-schedule and resume boundaries before it -/
+theorem C14_same_fit_generation_run (ce iter0 : Nat) (steps : List Step) :
+    ∃ didFit, (run { clusterEvery := ce } iter0 (steps ++ [.iter false])).trace
+      = (run { clusterEvery := ce } iter0 steps).trace ++ annealEvents didFit := by
+  have h := inv_run { clusterEvery := ce } rfl steps _ (inv_init iter0)
+  obtain ⟨b, hb, _⟩ := C14_same_fit_generation { clusterEvery := ce } rfl rfl _ h
+  refine ⟨b, ?_⟩
+  simpa [run, List.foldl_append] using hb
+
+example : (run { clusterEvery := 3 } 0 ([.iter true, .iter false, .resume] ++ [.iter false])).trace
+    = (run { clusterEvery := 3 } 0 [.iter true, .iter false, .resume]).trace ++ annealEvents true := by decide
+
+/-- **cap, from C15's theorem and the wiring** (no bound assumed): the hierarchy fitted with `max_iterations` wired from
+    `n_max_clusters = some nMax`, `nMax ≥ 1`, has between 1 and `nMax` clusters, for every split oracle that labels children validly -/
+theorem C14_cap_hgmm {α : Type} [Sc α] (oracle : Nat → Nat → List Nat → Model.HGMM.Entry α) (n minPts nMax : Nat) (hn : 1 ≤ nMax)
+    (hlab : ∀ it idx c, minPts ≤ c.length → Props.C15.LabelsOK c (oracle it idx c).childLabels) :
+    1 ≤ (Model.HGMM.fitClusters oracle n minPts (wiredMaxIterations (some nMax))).length ∧
+    (Model.HGMM.fitClusters oracle n minPts (wiredMaxIterations (some nMax))).length ≤ nMax := by
+  obtain ⟨h1, h2⟩ := Props.C15.C15_cap oracle n minPts (wiredMaxIterations (some nMax)) hlab
+  refine ⟨h1, ?_⟩
+  simp only [wiredMaxIterations] at h2 ⊢
+  omega
+
+example : wiredMaxIterations none = 1000 ∧ wiredMaxIterations (some 1) = 0 ∧ wiredMaxIterations (some 3) = 2 := by decide
+
+/-! ## positive-definiteness made concrete -/
+
+open Lemmas.CholeskyPD in
+/-- **C14 (validity), concrete**: instantiate the constructor model at real `d×d` matrices with ANY `cholesky?` that honours the
+    LAPACK contract (a returned `L` is lower triangular with positive diagonal and `L Lᵀ` = the symmetric matrix read from the lower
+    triangle of the input).  Then for every mode object that exists, every scale matrix (as LAPACK reads it) is positive definite;
+    and equal to the stored matrix whenever that is symmetric (`Props.C19.C19_sigma_symm`). -/
+theorem C14_scale_matrices_posDef {V D : Type} {d : ℕ}
+    (inv? cholesky? : Matrix (Fin d) (Fin d) ℝ → Option (Matrix (Fin d) (Fin d) ℝ))
+    (hcontract : ∀ A L, cholesky? A = some L → IsCholeskyFactor A L)
+    (means : List V) (covs : List (Matrix (Fin d) (Fin d) ℝ)) (dofs : List D) (ms : ModeStats V (Matrix (Fin d) (Fin d) ℝ) D)
+    (h : mkModeStats inv? cholesky? means covs dofs = some ms) (k : Nat) (hk : k < ms.K) :
+    ∃ A, ms.covs[k]? = some A ∧ (symLower A).PosDef ∧ (A.IsSymm → A.PosDef) := by
+  obtain ⟨A, L, _, h1, _, _, h4, _, h6⟩ :=
+    (C14_modes_valid_by_construction inv? cholesky? (fun A => (symLower A).PosDef)
+      (fun A L hAL => posDef_of_factor A L (hcontract A L hAL)) means covs dofs ms h).2.2.2.2 k hk
+  exact ⟨A, h1, h6, fun hs => by rw [← symLower_of_isSymm A hs]; exact h6⟩
 
 end Props.C14
